@@ -1,106 +1,184 @@
-(* Proofs/TransitionOps.v — the transition step of Model/Transition.v: what is preserved, where the parts
-   go, and why shared parts survive *)
+(* Proofs/TransitionOps.v — the transition step of Model/Transition.v: exactly the addressed row changes, where
+   its parts go, and why other versions and shared parts survive *)
 From Verif Require Import Bytes Codec Transition TransitionProofs.
 From Coq Require Import ZifyBool ZifyN ZifyNat.
 
 Definition blob_of (s : state) (p : part) : option N := blob_get (p_store p, p_id p) (s_blobs s).
 
-Lemma find_replace_same s k v o o' :
-  find_version s k v = Some o -> find_version (replace_version s k v o') k v = Some o'.
+(* ---------------- addressing ---------------- *)
+Lemma find_idx_spec f vs i : find_idx f vs = Some i ->
+  exists r, nth_error vs i = Some r /\ f r = true /\ forall j r', (j < i)%nat -> nth_error vs j = Some r' -> f r' = false.
 Proof.
-  unfold find_version, replace_version. cbn [with_objs s_objs]. rewrite versions_of_set_same.
-  destruct v as [n|].
-  - destruct (fst k =? 1)%N; [|discriminate]. intros H. apply find_ord_update_same. congruence.
-  - destruct (versions_of k (s_objs s)) as [|[m o0] r]; [discriminate | reflexivity].
+  revert i; induction vs as [|x vs IH]; intros i; cbn [find_idx]; [discriminate|].
+  destruct (f x) eqn:E.
+  - intros H; inversion H; subst. exists x. split; [reflexivity|]. split; [exact E|]. intros j r' Hj; lia.
+  - destruct (find_idx f vs) as [i'|] eqn:F; [|discriminate]. cbn. intros H; inversion H; subst.
+    destruct (IH i' eq_refl) as (r & H1 & H2 & H3). exists r. split; [exact H1|]. split; [exact H2|].
+    intros [|j] r' Hj Hn; cbn in Hn; [inversion Hn; subst; exact E | apply (H3 j r'); [lia | exact Hn]].
 Qed.
-Lemma replace_ords s k v o' :
-  map fst (versions_of k (s_objs (replace_version s k v o'))) = map fst (versions_of k (s_objs s)).
+Lemma find_idx_ext f g vs : (forall r, In r vs -> f r = g r) -> find_idx f vs = find_idx g vs.
 Proof.
-  unfold replace_version. cbn [with_objs s_objs]. rewrite versions_of_set_same.
-  destruct v as [n|]; [apply update_ord_ords|].
-  destruct (versions_of k (s_objs s)) as [|[m o0] r]; reflexivity.
+  induction vs as [|x vs IH]; intros H; [reflexivity|]. cbn [find_idx]. rewrite (H x (or_introl eq_refl)).
+  rewrite IH; [reflexivity | intros r Hr; apply H; right; exact Hr].
 Qed.
-Lemma replace_other s k v o' k' v' : k' <> k ->
-  find_version (replace_version s k v o') k' v' = find_version s k' v'.
+Lemma find_idx_update f i g vs : (forall r, f (g r) = f r) -> find_idx f (update_nth i g vs) = find_idx f vs.
 Proof.
-  intros Hn. unfold find_version, replace_version. cbn [with_objs s_objs].
-  rewrite versions_of_set_other by exact Hn. reflexivity.
+  intros Hf. revert i; induction vs as [|x vs IH]; intros [|i]; cbn [update_nth find_idx]; try reflexivity.
+  - rewrite Hf. reflexivity.
+  - rewrite IH. reflexivity.
+Qed.
+Lemma resolve_update_obj vs i o v : resolve (update_nth i (set_obj o) vs) v = resolve vs v.
+Proof. destruct v; cbn [resolve]; try reflexivity; apply find_idx_update; intros r; reflexivity. Qed.
+
+(* the row a selector resolves to is one that carries what the selector names *)
+Lemma resolve_addresses vs v i r : resolve vs v = Some i -> nth_error vs i = Some r ->
+  match v with
+  | VLatest => v_latest r = true
+  | VOrd n => v_ord r = n
+  | VNull => v_null r = true
+  | VUnknown => False
+  end.
+Proof.
+  destruct v; cbn [resolve]; intros H Hn; try discriminate;
+    destruct (find_idx_spec _ _ _ H) as (r0 & H1 & H2 & _); rewrite Hn in H1; inversion H1; subst; auto.
+  apply N.eqb_eq; exact H2.
 Qed.
 
-Lemma register_objs s rows : s_objs (register s rows) = s_objs s /\ s_blobs (register s rows) = s_blobs s.
-Proof. split; reflexivity. Qed.
+(* ---------------- replace_row_obj ---------------- *)
+Lemma replace_row_versions s k i o' :
+  versions_of k (s_objs (replace_row_obj s k i o')) = update_nth i (set_obj o') (versions_of k (s_objs s)).
+Proof. unfold replace_row_obj. cbn [with_objs s_objs]. apply versions_of_set_same. Qed.
+Lemma replace_row_other s k i o' k' : k' <> k ->
+  versions_of k' (s_objs (replace_row_obj s k i o')) = versions_of k' (s_objs s).
+Proof. intros Hn. unfold replace_row_obj. cbn [with_objs s_objs]. apply versions_of_set_other, Hn. Qed.
+
+Definition ifmatch_holds (s : state) (k : okey) (r : ver) (im : ifmatch) : Prop :=
+  match im with
+  | IMOrd n => exists rr, find_row s k (VOrd n) = Some rr /\ v_dm rr = false /\ etag_eqb (v_obj r) (v_obj rr) = true
+  | _ => True
+  end.
 
 (* the shape of a successful transition *)
-Lemma transition_unfold cfg s k v c s' :
-  step cfg s (OTransition k v c) = (s', None) ->
-  exists o s1 rows shared,
-    valid_class c = true /\ find_version s k v = Some o /\
-    move_parts s (cfg_get c cfg) (o_parts o) = (s1, rows, shared, true) /\
+Lemma transition_unfold cfg s k v c im s' :
+  step cfg s (OTransition k v c im) = (s', None) ->
+  exists i r s1 rows shared,
+    valid_class c = true /\ resolve (versions_of k (s_objs s)) v = Some i /\
+    nth_error (versions_of k (s_objs s)) i = Some r /\ v_dm r = false /\ ifmatch_holds s k r im /\
+    move_parts s (cfg_get c cfg) (o_parts (v_obj r)) = (s1, rows, shared, true) /\
     all_live s1 shared = true /\
-    s' = register (remove_rows (replace_version (add_refs s1 shared) k v
-                                  (mkO (Some c) (map fst rows) (o_meta o) (o_tags o))) (o_parts o)) rows.
+    s' = register (remove_rows (replace_row_obj (add_refs s1 shared) k i
+                                  (mkO (Some c) (map fst rows) (o_meta (v_obj r)) (o_tags (v_obj r)) (o_mp (v_obj r))))
+                               (o_parts (v_obj r))) rows.
 Proof.
   cbn [step]. unfold do_transition.
   destruct (negb (known_version s k v)); [discriminate|].
+  destruct (match im with IMOrd n => _ | _ => Some None end) as [ref|] eqn:Href; [|discriminate].
   destruct (valid_class c) eqn:Hv; cbn [negb]; [|discriminate].
-  destruct (find_version s k v) as [o|] eqn:Hf; [|discriminate].
-  destruct (move_parts s (cfg_get c cfg) (o_parts o)) as [[[s1 rows] shared] ok] eqn:Hm.
+  destruct (resolve (versions_of k (s_objs s)) v) as [i|] eqn:Hr; [|discriminate].
+  destruct (nth_error (versions_of k (s_objs s)) i) as [r|] eqn:Hn; [|discriminate].
+  destruct (v_dm r) eqn:Hdm; [discriminate|].
+  destruct (match ref with Some ro => negb (etag_eqb (v_obj r) ro) | None => false end) eqn:Him; [discriminate|].
+  destruct (move_parts s (cfg_get c cfg) (o_parts (v_obj r))) as [[[s1 rows] shared] ok] eqn:Hm.
   destruct ok; cbn [negb]; [|discriminate].
   destruct (all_live s1 shared) eqn:Hl; cbn [negb]; [|discriminate].
-  intros E; inversion E. exists o, s1, rows, shared. auto.
+  intros E; inversion E. exists i, r, s1, rows, shared.
+  repeat split; auto.
+  unfold ifmatch_holds. destruct im as [| |n]; auto.
+  destruct (find_row s k (VOrd n)) as [rr|] eqn:Hf; [|discriminate].
+  destruct (v_dm rr) eqn:Hd; [discriminate|]. inversion Href; subst ref.
+  exists rr. split; [reflexivity|]. split; [exact Hd|]. apply negb_false_iff. exact Him.
 Qed.
 
-Lemma transition_preserves cfg s k v c s' :
-  step cfg s (OTransition k v c) = (s', None) ->
-  exists o o', find_version s k v = Some o /\ find_version s' k v = Some o' /\ valid_class c = true /\
-    o_class o' = Some c /\ o_meta o' = o_meta o /\ o_tags o' = o_tags o /\
-    map p_cont (o_parts o') = map p_cont (o_parts o) /\
-    map fst (versions_of k (s_objs s')) = map fst (versions_of k (s_objs s)) /\
+Lemma transition_preserves cfg s k v c im s' :
+  step cfg s (OTransition k v c im) = (s', None) ->
+  exists i r o',
+    resolve (versions_of k (s_objs s)) v = Some i /\ nth_error (versions_of k (s_objs s)) i = Some r /\
+    v_dm r = false /\ valid_class c = true /\ ifmatch_holds s k r im /\
+    (* the addressed row: same ordinal / version id / flags / created_at; only the object record changes *)
+    nth_error (versions_of k (s_objs s')) i = Some (set_obj o' r) /\
+    o_class o' = Some c /\ o_meta o' = o_meta (v_obj r) /\ o_tags o' = o_tags (v_obj r) /\ o_mp o' = o_mp (v_obj r) /\
+    map p_cont (o_parts o') = map p_cont (o_parts (v_obj r)) /\
     (forall p, In p (o_parts o') -> p_store p = cfg_get c cfg) /\
-    (forall k' v', k' <> k -> find_version s' k' v' = find_version s k' v').
+    (* every other row of the key, every other key and the bucket states are untouched *)
+    (forall j, j <> i -> nth_error (versions_of k (s_objs s')) j = nth_error (versions_of k (s_objs s)) j) /\
+    length (versions_of k (s_objs s')) = length (versions_of k (s_objs s)) /\
+    (forall k', k' <> k -> versions_of k' (s_objs s') = versions_of k' (s_objs s)) /\
+    s_st0 s' = s_st0 s /\ s_st1 s' = s_st1 s.
 Proof.
-  intros H. destruct (transition_unfold _ _ _ _ _ _ H) as (o & s1 & rows & shared & Hv & Hf & Hm & Hl & ->).
+  intros H. destruct (transition_unfold _ _ _ _ _ _ _ H) as (i & r & s1 & rows & shared & Hv & Hr & Hn & Hdm & Him & Hm & Hl & ->).
   destruct (move_parts_spec _ _ _ _ _ _ Hm) as (H1 & H2 & H3 & H4 & H5 & H6 & H7 & H8 & H9 & H10 & H11).
-  exists o, (mkO (Some c) (map fst rows) (o_meta o) (o_tags o)).
-  set (o' := mkO _ _ _ _). set (s2 := add_refs s1 shared).
+  set (o' := mkO (Some c) (map fst rows) (o_meta (v_obj r)) (o_tags (v_obj r)) (o_mp (v_obj r))).
+  set (s2 := add_refs s1 shared).
   assert (Hobjs : s_objs s2 = s_objs s) by (subst s2; cbn; exact H1).
-  assert (Hf2 : find_version s2 k v = Some o) by (unfold find_version in *; rewrite Hobjs; exact Hf).
-  assert (Hso : s_objs (register (remove_rows (replace_version s2 k v o') (o_parts o)) rows) = s_objs (replace_version s2 k v o')).
+  assert (Hso : s_objs (register (remove_rows (replace_row_obj s2 k i o') (o_parts (v_obj r))) rows) = s_objs (replace_row_obj s2 k i o')).
   { cbn [register add_refs with_reg s_objs]. apply remove_rows_objs. }
-  split; [exact Hf|]. split.
-  { unfold find_version at 1. rewrite Hso. apply (find_replace_same s2 k v o o' Hf2). }
-  split; [exact Hv|]. split; [reflexivity|]. split; [reflexivity|]. split; [reflexivity|].
-  split; [exact H6|]. split.
-  { rewrite Hso, replace_ords, Hobjs. reflexivity. }
-  split; [exact H7|].
-  intros k' v' Hn. unfold find_version at 1. rewrite Hso.
-  change (find_version (replace_version s2 k v o') k' v' = find_version s k' v').
-  rewrite replace_other by exact Hn. unfold find_version. rewrite Hobjs. reflexivity.
+  exists i, r, o'. rewrite Hso, replace_row_versions, Hobjs.
+  split; [exact Hr|]. split; [exact Hn|]. split; [exact Hdm|]. split; [exact Hv|]. split; [exact Him|].
+  split; [apply nth_update_same, Hn|].
+  split; [reflexivity|]. split; [reflexivity|]. split; [reflexivity|]. split; [reflexivity|].
+  split; [exact H6|]. split; [exact H7|].
+  split; [intros j Hj; apply nth_update_other, Hj|].
+  split; [apply update_nth_length|].
+  split; [intros k' Hk; rewrite replace_row_other by exact Hk; rewrite Hobjs; reflexivity|].
+  assert (Hst : forall s0 ps, s_st0 (remove_rows s0 ps) = s_st0 s0 /\ s_st1 (remove_rows s0 ps) = s_st1 s0).
+  { intros s0 ps; revert s0; induction ps as [|p ps IH]; intros s0; cbn [remove_rows fold_left]; [auto|].
+    fold (remove_rows (remove_row s0 p) ps). destruct (IH (remove_row s0 p)) as [A1 A2]. rewrite A1, A2.
+    unfold remove_row. destruct (reg_dec (p_id p) (s_reg s0)) as [rr z]. destruct z; cbn; auto. }
+  cbn [register add_refs with_reg s_st0 s_st1].
+  destruct (Hst (replace_row_obj s2 k i o') (o_parts (v_obj r))) as [A1 A2]. rewrite A1, A2.
+  subst s2. cbn [replace_row_obj with_objs add_refs with_reg s_st0 s_st1].
+  clear - Hm. revert s s1 rows shared Hm.
+  induction (o_parts (v_obj r)) as [|p ps IH]; intros s s1 rows shared; cbn [move_parts].
+  - intros E; inversion E; auto.
+  - destruct (p_store p =? cfg_get c cfg)%N.
+    + destruct (move_parts s (cfg_get c cfg) ps) as [[[s2 rows2] sh2] ok2] eqn:E2. intros E; inversion E; subst. eapply IH; eauto.
+    + destruct (blob_get (p_store p, p_id p) (s_blobs s)); [|intros E; inversion E].
+      destruct (move_parts _ (cfg_get c cfg) ps) as [[[s2 rows2] sh2] ok2] eqn:E2. intros E; inversion E; subst.
+      destruct (IH _ _ _ _ E2) as [B1 B2]. cbn in B1, B2. auto.
 Qed.
 
 Lemma failed_step_unchanged cfg s o e : snd (step cfg s o) = Some e -> fst (step cfg s o) = s.
 Proof.
   destruct o; cbn [step].
   - unfold do_put. destruct (write_fresh s (store_for cfg cls) cont) as [[s1 p] pre]. discriminate.
-  - unfold do_append. destruct (find_version s k None) as [o|].
-    + destruct (write_fresh s (store_for cfg (o_class o)) cont) as [[s1 p] pre].
-      destruct (fst k =? 1)%N; [destruct (all_live s1 (map p_id (o_parts o)))|]; try discriminate; reflexivity.
-    + destruct (write_fresh s (store_for cfg None) cont) as [[s1 p] pre]. discriminate.
+  - unfold do_append. destruct (status_of s k); try reflexivity;
+      (destruct (current_object s k) as [[i r]|];
+       [destruct (write_fresh s (store_for cfg (o_class (v_obj r))) cont) as [[s1 p] pre];
+        try (destruct (all_live s1 (map p_id (o_parts (v_obj r))))); try discriminate; reflexivity
+       | destruct (write_fresh s (store_for cfg None) cont) as [[s1 p] pre]; discriminate]).
   - unfold do_copy. destruct (negb (known_version s src sv)); [reflexivity|].
-    destruct (find_version s src sv) as [o|]; [|reflexivity].
-    destruct (copy_parts s (store_for cfg cls) (o_parts o)) as [[[s1 rows] shared] ok].
+    destruct (find_row s src sv) as [r|]; [|reflexivity]. destruct (v_dm r); [reflexivity|].
+    destruct (copy_parts s (store_for cfg cls) (o_parts (v_obj r))) as [[[s1 rows] shared] ok].
     destruct (negb ok); [reflexivity|]. destruct (negb (all_live s1 shared)); [reflexivity | discriminate].
   - unfold do_transition. destruct (negb (known_version s k v)); [reflexivity|].
-    destruct (negb (valid_class cls)); [reflexivity|]. destruct (find_version s k v) as [o|]; [|reflexivity].
-    destruct (move_parts s (cfg_get cls cfg) (o_parts o)) as [[[s1 rows] shared] ok].
+    destruct (match im with IMOrd n => _ | _ => Some None end) as [ref|]; [|reflexivity].
+    destruct (negb (valid_class cls)); [reflexivity|].
+    destruct (resolve (versions_of k (s_objs s)) v) as [i|]; [|reflexivity].
+    destruct (nth_error (versions_of k (s_objs s)) i) as [r|]; [|reflexivity].
+    destruct (v_dm r); [reflexivity|].
+    destruct (match ref with Some ro => negb (etag_eqb (v_obj r) ro) | None => false end); [reflexivity|].
+    destruct (move_parts s (cfg_get cls cfg) (o_parts (v_obj r))) as [[[s1 rows] shared] ok].
     destruct (negb ok); [reflexivity|]. destruct (negb (all_live s1 shared)); [reflexivity | discriminate].
-  - unfold do_delete. destruct v, (fst k =? 1)%N; try reflexivity.
-    + destruct (find_ord n (versions_of k (s_objs s))); [discriminate | reflexivity].
-    + destruct (versions_of k (s_objs s)) as [|[? ?] ?]; discriminate.
+  - unfold do_delete. destruct (negb (known_version s k v)); [reflexivity|].
+    destruct v; try (destruct (resolve (versions_of k (s_objs s)) _); discriminate).
+    destruct (status_of s k); try discriminate.
+    destruct (resolve (versions_of k (s_objs s)) VLatest); discriminate.
+  - discriminate.
   - reflexivity.
   - reflexivity.
   - reflexivity.
   - reflexivity.
+Qed.
+
+(* a transition whose If-Match names an ETag different from the addressed version's is refused *)
+Lemma transition_ifmatch_mismatch cfg s k v c n i r rr :
+  known_version s k v = true -> valid_class c = true ->
+  resolve (versions_of k (s_objs s)) v = Some i -> nth_error (versions_of k (s_objs s)) i = Some r -> v_dm r = false ->
+  find_row s k (VOrd n) = Some rr -> v_dm rr = false -> etag_eqb (v_obj r) (v_obj rr) = false ->
+  step cfg s (OTransition k v c (IMOrd n)) = (s, Some PreconditionFailed).
+Proof.
+  intros Hk Hv Hr Hn Hd Hf Hd2 He. cbn [step]. unfold do_transition.
+  rewrite Hk, Hf, Hd2, Hv, Hr, Hn, Hd, He. reflexivity.
 Qed.
 
 (* ---------------- bytes ---------------- *)
@@ -122,65 +200,61 @@ Proof.
 Qed.
 Lemma all_live_In s ids i : all_live s ids = true -> In i ids -> (1 <= reg_get i (s_reg s))%N.
 Proof. unfold all_live. rewrite forallb_forall. intros H Hi. specialize (H _ Hi). lia. Qed.
-Lemma occ_pos i ids : In i ids -> (1 <= occ i ids)%N.
-Proof.
-  induction ids as [|j ids IH]; [intros []|]. rewrite occ_cons. intros [->|H]; [rewrite N.eqb_refl; lia|].
-  specialize (IH H). lia.
-Qed.
 
-(* a part whose id the transitioned object does not carry, or for which the registry counts more
-   references than the transitioned object has rows, keeps its bytes *)
-Lemma transition_spares cfg s k v c s' o st i :
-  step cfg s (OTransition k v c) = (s', None) -> find_version s k v = Some o ->
-  (i < s_nextp s)%N ->
-  (rows_with i (o_parts o) = 0 \/ rows_with i (o_parts o) < reg_get i (s_reg s))%N ->
-  blob_get (st, i) (s_blobs s') = blob_get (st, i) (s_blobs s).
+(* a part whose id the transitioned version does not carry, or for which the registry counts more
+   references than the transitioned version has rows, keeps its bytes *)
+Lemma transition_spares cfg s k v c im s' i r st id :
+  step cfg s (OTransition k v c im) = (s', None) ->
+  resolve (versions_of k (s_objs s)) v = Some i -> nth_error (versions_of k (s_objs s)) i = Some r ->
+  (id < s_nextp s)%N ->
+  (rows_with id (o_parts (v_obj r)) = 0 \/ rows_with id (o_parts (v_obj r)) < reg_get id (s_reg s))%N ->
+  blob_get (st, id) (s_blobs s') = blob_get (st, id) (s_blobs s).
 Proof.
-  intros H Hf Hi Hc. destruct (transition_unfold _ _ _ _ _ _ H) as (o0 & s1 & rows & shared & Hv & Hf0 & Hm & Hl & ->).
-  rewrite Hf in Hf0; inversion Hf0; subst o0; clear Hf0.
+  intros H Hr Hn Hi Hc.
+  destruct (transition_unfold _ _ _ _ _ _ _ H) as (i0 & r0 & s1 & rows & shared & Hv & Hr0 & Hn0 & Hdm & Him & Hm & Hl & ->).
+  rewrite Hr in Hr0; inversion Hr0; subst i0. rewrite Hn in Hn0; inversion Hn0; subst r0.
   destruct (move_parts_spec _ _ _ _ _ _ Hm) as (H1 & H2 & H3 & H4 & H5 & H6 & H7 & H8 & H9 & H10 & H11).
   cbn [register add_refs with_reg s_blobs].
-  set (s3 := replace_version _ _ _ _).
-  destruct (remove_rows_keeps (o_parts o) s3 st i) as [Hb _].
-  { subst s3. cbn [replace_version with_objs add_refs with_reg s_reg]. rewrite reg_get_add_refs, H2.
+  set (s3 := replace_row_obj _ _ _ _).
+  destruct (remove_rows_keeps (o_parts (v_obj r)) s3 st id) as [Hb _].
+  { subst s3. cbn [replace_row_obj with_objs add_refs with_reg s_reg]. rewrite reg_get_add_refs, H2.
     destruct Hc as [Hc|Hc]; [left; exact Hc | right; lia]. }
-  rewrite Hb. subst s3. cbn [replace_version with_objs add_refs with_reg s_blobs]. apply H9, Hi.
+  rewrite Hb. subst s3. cbn [replace_row_obj with_objs add_refs with_reg s_blobs]. apply H9, Hi.
 Qed.
 
-(* after the transition every part row of the object is backed, in the store it names, by the bytes the
-   corresponding old row had *)
-Lemma transition_routes_bytes cfg s k v c s' o :
-  step cfg s (OTransition k v c) = (s', None) -> find_version s k v = Some o ->
-  (forall p, In p (o_parts o) -> (p_id p < s_nextp s)%N) ->
-  (forall p q, In p (o_parts o) -> In q (o_parts o) -> p_id p = p_id q -> p_store p = p_store q) ->
-  exists o', find_version s' k v = Some o' /\
-    forall n, option_map (blob_of s') (nth_error (o_parts o') n) = option_map (blob_of s) (nth_error (o_parts o) n).
+(* after the transition every part row of the addressed version is backed, in the store it names, by the
+   bytes the corresponding old row had *)
+Lemma transition_routes_bytes cfg s k v c im s' i r :
+  step cfg s (OTransition k v c im) = (s', None) ->
+  resolve (versions_of k (s_objs s)) v = Some i -> nth_error (versions_of k (s_objs s)) i = Some r ->
+  (forall p, In p (o_parts (v_obj r)) -> (p_id p < s_nextp s)%N) ->
+  (forall p q, In p (o_parts (v_obj r)) -> In q (o_parts (v_obj r)) -> p_id p = p_id q -> p_store p = p_store q) ->
+  exists r', nth_error (versions_of k (s_objs s')) i = Some r' /\
+    forall n, option_map (blob_of s') (nth_error (o_parts (v_obj r')) n) = option_map (blob_of s) (nth_error (o_parts (v_obj r)) n).
 Proof.
-  intros H Hf L1 L2.
-  destruct (transition_preserves _ _ _ _ _ _ H) as (o0 & o' & Hf0 & Hf' & _).
-  rewrite Hf in Hf0; inversion Hf0; subst o0; clear Hf0.
-  destruct (transition_unfold _ _ _ _ _ _ H) as (o0 & s1 & rows & shared & Hv & Hf0 & Hm & Hl & Hs').
-  rewrite Hf in Hf0; inversion Hf0; subst o0; clear Hf0.
+  intros H Hr Hn L1 L2.
+  destruct (transition_preserves _ _ _ _ _ _ _ H) as (i0 & r0 & o' & Hr0 & Hn0 & _ & _ & _ & Hn' & _).
+  rewrite Hr in Hr0; inversion Hr0; subst i0. rewrite Hn in Hn0; inversion Hn0; subst r0.
+  destruct (transition_unfold _ _ _ _ _ _ _ H) as (i0 & r0 & s1 & rows & shared & Hv & Hr0' & Hn0' & Hdm & Him & Hm & Hl & Hs').
+  rewrite Hr in Hr0'; inversion Hr0'; subst i0. rewrite Hn in Hn0'; inversion Hn0'; subst r0.
   destruct (move_parts_spec _ _ _ _ _ _ Hm) as (H1 & H2 & H3 & H4 & H5 & H6 & H7 & H8 & H9 & H10 & H11).
-  exists o'. split; [exact Hf'|].
+  exists (set_obj o' r). split; [exact Hn'|].
   assert (Ho' : o_parts o' = map fst rows).
-  { subst s'. revert Hf'. unfold find_version at 1. cbn [register add_refs with_reg s_objs].
-    destruct (remove_rows_objs (o_parts o) (replace_version (add_refs s1 shared) k v (mkO (Some c) (map fst rows) (o_meta o) (o_tags o)))) as (Ho & _).
-    rewrite Ho. intros Hx.
-    assert (Hf2 : find_version (add_refs s1 shared) k v = Some o) by (unfold find_version in *; cbn [add_refs with_reg s_objs]; rewrite H1; exact Hf).
-    pose proof (find_replace_same _ k v o (mkO (Some c) (map fst rows) (o_meta o) (o_tags o)) Hf2) as Hy.
-    unfold find_version in Hy. rewrite Hy in Hx. inversion Hx. reflexivity. }
-  intros n. rewrite Ho', nth_error_map.
-  destruct (H10 n) as [Hn|(q & Hq & Hge)]; [|apply nth_error_In in Hq; specialize (L1 _ Hq); lia].
-  destruct (nth_error rows n) as [pb|] eqn:En; cbn [option_map] in *; [|unfold blob_of; exact Hn].
-  etransitivity; [|exact Hn]. f_equal. unfold blob_of.
-  (* the blob of the new row survives the removal of the old rows *)
+  { subst s'. revert Hn'. cbn [register add_refs with_reg s_objs].
+    destruct (remove_rows_objs (o_parts (v_obj r)) (replace_row_obj (add_refs s1 shared) k i
+               (mkO (Some c) (map fst rows) (o_meta (v_obj r)) (o_tags (v_obj r)) (o_mp (v_obj r))))) as (Ho & _).
+    rewrite Ho, replace_row_versions. cbn [add_refs with_reg s_objs]. rewrite H1.
+    rewrite (nth_update_same i _ _ r Hn). intros Hx. inversion Hx as [Hy]. unfold set_obj in Hy. inversion Hy. reflexivity. }
+  intros n. cbn [set_obj v_obj]. rewrite Ho', nth_error_map.
+  destruct (H10 n) as [Hn2|(q & Hq & Hge)]; [|apply nth_error_In in Hq; specialize (L1 _ Hq); lia].
+  destruct (nth_error rows n) as [pb|] eqn:En; cbn [option_map] in *; [|unfold blob_of; exact Hn2].
+  etransitivity; [|exact Hn2]. f_equal. unfold blob_of.
   subst s'. cbn [register add_refs with_reg s_blobs].
-  set (s3 := replace_version _ _ _ _).
-  destruct (remove_rows_keeps (o_parts o) s3 (p_store (fst pb)) (p_id (fst pb))) as [Hb _].
+  set (s3 := replace_row_obj _ _ _ _).
+  destruct (remove_rows_keeps (o_parts (v_obj r)) s3 (p_store (fst pb)) (p_id (fst pb))) as [Hb _].
   { destruct (H11 pb (nth_error_In _ _ En)) as [(Hfl & Hin & Hst)|(Hfl & Hfresh)].
-    - right. subst s3. cbn [replace_version with_objs add_refs with_reg s_reg]. rewrite reg_get_add_refs, H2.
-      assert (Hocc : occ (p_id (fst pb)) shared = rows_with (p_id (fst pb)) (o_parts o)).
+    - right. subst s3. cbn [replace_row_obj with_objs add_refs with_reg s_reg]. rewrite reg_get_add_refs, H2.
+      assert (Hocc : occ (p_id (fst pb)) shared = rows_with (p_id (fst pb)) (o_parts (v_obj r))).
       { rewrite H8. unfold rows_with. apply occ_filter. intros q Hq Hid.
         apply N.eqb_eq. rewrite <- Hst. apply L2; auto. }
       assert (Hin' : In (p_id (fst pb)) shared).
@@ -201,7 +275,6 @@ Proof.
     cbn [read_parts]. unfold blob_of in Hb. rewrite Hb.
     rewrite (IH ps'); [reflexivity|]. intros n. apply (H (S n)).
 Qed.
-
 Lemma read_parts_ext s s' ps :
   (forall q, In q ps -> blob_of s' q = blob_of s q) -> read_parts s' ps = read_parts s ps.
 Proof.
@@ -210,24 +283,59 @@ Proof.
   rewrite IH; [reflexivity | intros q Hq; apply H; right; exact Hq].
 Qed.
 
-(* any other object whose parts are not exclusively referenced by the transitioned object reads the same
-   bytes after the transition *)
-Lemma transition_spares_object cfg s k v c s' o qs :
-  step cfg s (OTransition k v c) = (s', None) -> find_version s k v = Some o ->
+(* any list of part rows (another version of the key, an object of another key) whose parts are not
+   exclusively referenced by the transitioned version reads the same bytes afterwards *)
+Lemma transition_spares_object cfg s k v c im s' i r qs :
+  step cfg s (OTransition k v c im) = (s', None) ->
+  resolve (versions_of k (s_objs s)) v = Some i -> nth_error (versions_of k (s_objs s)) i = Some r ->
   (forall q, In q qs -> (p_id q < s_nextp s)%N /\
-                        (rows_with (p_id q) (o_parts o) = 0 \/ rows_with (p_id q) (o_parts o) < reg_get (p_id q) (s_reg s))%N) ->
+       (rows_with (p_id q) (o_parts (v_obj r)) = 0 \/ rows_with (p_id q) (o_parts (v_obj r)) < reg_get (p_id q) (s_reg s))%N) ->
   read_parts s' qs = read_parts s qs.
 Proof.
-  intros H Hf Hq. apply read_parts_ext. intros q Hin. destruct (Hq q Hin) as [H1 H2].
+  intros H Hr Hn Hq. apply read_parts_ext. intros q Hin. destruct (Hq q Hin) as [H1 H2].
   unfold blob_of. eapply transition_spares; eauto.
 Qed.
 
-Lemma transition_reads_same cfg s k v c s' o :
-  step cfg s (OTransition k v c) = (s', None) -> find_version s k v = Some o ->
-  (forall p, In p (o_parts o) -> (p_id p < s_nextp s)%N) ->
-  (forall p q, In p (o_parts o) -> In q (o_parts o) -> p_id p = p_id q -> p_store p = p_store q) ->
+(* every OTHER version of the key is the same row, addressed by the same selectors, and reads the same bytes *)
+Lemma transition_other_versions cfg s k v c im s' i r j rj :
+  step cfg s (OTransition k v c im) = (s', None) ->
+  resolve (versions_of k (s_objs s)) v = Some i -> nth_error (versions_of k (s_objs s)) i = Some r ->
+  j <> i -> nth_error (versions_of k (s_objs s)) j = Some rj ->
+  (forall q, In q (o_parts (v_obj rj)) -> (p_id q < s_nextp s)%N /\
+       (rows_with (p_id q) (o_parts (v_obj r)) = 0 \/ rows_with (p_id q) (o_parts (v_obj r)) < reg_get (p_id q) (s_reg s))%N) ->
+  nth_error (versions_of k (s_objs s')) j = Some rj /\
+  (forall w, resolve (versions_of k (s_objs s')) w = resolve (versions_of k (s_objs s)) w) /\
+  read_parts s' (o_parts (v_obj rj)) = read_parts s (o_parts (v_obj rj)).
+Proof.
+  intros H Hr Hn Hj Hnj Hq.
+  destruct (transition_preserves _ _ _ _ _ _ _ H) as (i0 & r0 & o' & Hr0 & Hn0 & _ & _ & _ & Hn' & _ & _ & _ & _ & _ & _ & Hoth & _).
+  rewrite Hr in Hr0; inversion Hr0; subst i0.
+  split; [rewrite Hoth by exact Hj; exact Hnj|]. split.
+  - intros w.
+    destruct (transition_unfold _ _ _ _ _ _ _ H) as (i0 & r1 & s1 & rows & shared & Hv & Hr1 & Hn1 & Hdm & Him & Hm & Hl & ->).
+    destruct (move_parts_spec _ _ _ _ _ _ Hm) as (H1 & _).
+    cbn [register add_refs with_reg s_objs].
+    destruct (remove_rows_objs (o_parts (v_obj r1)) (replace_row_obj (add_refs s1 shared) k i0
+               (mkO (Some c) (map fst rows) (o_meta (v_obj r1)) (o_tags (v_obj r1)) (o_mp (v_obj r1))))) as (Ho & _).
+    rewrite Ho, replace_row_versions. cbn [add_refs with_reg s_objs]. rewrite H1. apply resolve_update_obj.
+  - exact (transition_spares_object cfg s k v c im s' i r _ H Hr Hn Hq).
+Qed.
+
+Lemma transition_reads_same cfg s k v c im s' i r :
+  step cfg s (OTransition k v c im) = (s', None) ->
+  resolve (versions_of k (s_objs s)) v = Some i -> nth_error (versions_of k (s_objs s)) i = Some r ->
+  (forall p, In p (o_parts (v_obj r)) -> (p_id p < s_nextp s)%N) ->
+  (forall p q, In p (o_parts (v_obj r)) -> In q (o_parts (v_obj r)) -> p_id p = p_id q -> p_store p = p_store q) ->
   read s' k v = read s k v.
 Proof.
-  intros H Hf L1 L2. destruct (transition_routes_bytes _ _ _ _ _ _ _ H Hf L1 L2) as (o' & Hf' & Hn).
-  unfold read. rewrite Hf, Hf'. apply read_parts_nth. exact Hn.
+  intros H Hr Hn L1 L2.
+  destruct (transition_routes_bytes _ _ _ _ _ _ _ _ _ H Hr Hn L1 L2) as (r' & Hn' & Hb).
+  assert (Hres : resolve (versions_of k (s_objs s')) v = Some i).
+  { destruct (transition_unfold _ _ _ _ _ _ _ H) as (i0 & r1 & s1 & rows & shared & Hv & Hr1 & Hn1 & Hdm & Him & Hm & Hl & ->).
+    destruct (move_parts_spec _ _ _ _ _ _ Hm) as (H1 & _).
+    cbn [register add_refs with_reg s_objs].
+    destruct (remove_rows_objs (o_parts (v_obj r1)) (replace_row_obj (add_refs s1 shared) k i0
+               (mkO (Some c) (map fst rows) (o_meta (v_obj r1)) (o_tags (v_obj r1)) (o_mp (v_obj r1))))) as (Ho & _).
+    rewrite Ho, replace_row_versions. cbn [add_refs with_reg s_objs]. rewrite H1, resolve_update_obj. exact Hr. }
+  unfold read, find_row. rewrite Hres, Hr, Hn', Hn. apply read_parts_nth. exact Hb.
 Qed.
